@@ -1,0 +1,58 @@
+//! A facade of `std` that routes the synchronisation primitives to `loom`.
+//!
+//! `scnr` declares `extern crate scnr_verif_std as std;` when it is compiled with the feature
+//! `verif_loom`. Every `std::sync::…`/`std::thread::…` path in scnr then resolves to the items
+//! below, so that loom's scheduler sees every lock, atomic and thread operation of the code under
+//! test without any edit to that code. Everything else is the real `std`.
+pub use loom;
+pub use std::*;
+
+pub mod thread {
+    pub use loom::thread::*;
+}
+
+pub mod sync {
+    // `Arc`, `Weak`, `Once`, … stay std's (loom's `Arc` cannot be unsized to `Arc<dyn Fn>`).
+    pub use loom::sync::{
+        Condvar, Mutex, MutexGuard, RwLock, RwLockReadGuard, RwLockWriteGuard,
+    };
+    pub use std::sync::*;
+
+    pub mod atomic {
+        pub use loom::sync::atomic::*;
+    }
+
+    pub mod mpsc {
+        pub use loom::sync::mpsc::*;
+    }
+
+    /// A `LazyLock` whose value lives in loom's per-execution storage, i.e. every explored
+    /// schedule starts with an uninitialised value.
+    pub struct LazyLock<T: 'static, F = fn() -> T> {
+        lazy: loom::lazy_static::Lazy<T>,
+        _f: std::marker::PhantomData<F>,
+    }
+
+    impl<T: 'static> LazyLock<T, fn() -> T> {
+        pub const fn new(f: fn() -> T) -> Self {
+            LazyLock {
+                lazy: loom::lazy_static::Lazy {
+                    init: f,
+                    _p: std::marker::PhantomData,
+                },
+                _f: std::marker::PhantomData,
+            }
+        }
+    }
+
+    impl<T: 'static> std::ops::Deref for LazyLock<T, fn() -> T> {
+        type Target = T;
+        fn deref(&self) -> &T {
+            // Only ever used for `static` items.
+            let s: &'static Self = unsafe { std::mem::transmute::<&Self, &'static Self>(self) };
+            s.lazy.get()
+        }
+    }
+
+    unsafe impl<T: Sync + Send, F> Sync for LazyLock<T, F> {}
+}
